@@ -16,7 +16,7 @@ PROPS = {
                     'Field255 limb arithmetic = fiat-crypto (not verified here)'],
         'assumptions': [],
         'quick': {
-            'verus': [('fp_ops', 'unit', 32), ('fp_ops', 'unit', 64)],
+            'verus': [('fp_ops', 'unit', 32), ('fp_ops', 'unit', 64), ('fp_mul128', 'unit')],
             'kani': [{'files': KC + ['c09_field.rs']}],
         },
         'thorough': {},
